@@ -1,6 +1,7 @@
 """Property table for the non-queue checks."""
 import pure
-from common import REPO as REPO_DIR
+import os
+from common import REPO as REPO_DIR, BUILD
 
 
 def q(n_quick, n_thorough):
@@ -147,7 +148,8 @@ def c15(prop, tier, res, replay=None):
 
 CFGFMT = dict(sub="cfgfmt", mode="cfgfmt", family="cfgfmt", shards=q(4, 16),
               args=lambda tier, sd, sh: ["-seed", sd * 1000 + sh, "-n", 2500 if tier == "quick" else 25000, "-lex", 3000 if tier == "quick" else 30000,
-                                         "-quote", 3000 if tier == "quick" else 30000, "-shard", sh, "-shards", 4 if tier == "quick" else 16, "-repo", REPO_DIR],
+                                         "-quote", 3000 if tier == "quick" else 30000, "-shard", sh, "-shards", 4 if tier == "quick" else 16, "-repo", REPO_DIR,
+                                         "-cli", os.path.join(BUILD, "hookaido")],
               key_fields=["k", "origin", "src", "v", "quoted"])
 
 
